@@ -67,14 +67,32 @@ where
     pub fn set_limit(&self, limit: usize) {
         self.limit.store(limit, Ordering::Release);
     }
+
+    /// Adds `size` to the tracked usage and returns the new usage,
+    /// unless that is more than the limit, or more than the counter can
+    /// hold. The usage is only ever changed to a value that was checked,
+    /// so requests that are refused do not disturb each other.
+    fn charge(&self, size: usize) -> Option<usize> {
+        let limit = self.limit.load(Ordering::Acquire);
+        let charged = self
+            .used
+            .fetch_update(Ordering::AcqRel, Ordering::Acquire, |used| {
+                match used.checked_add(size) {
+                    Some(new_used) if new_used <= limit => Some(new_used),
+                    _ => None,
+                }
+            });
+        match charged {
+            Ok(used) => Some(used + size),
+            Err(_) => None,
+        }
+    }
 }
 
 unsafe impl GlobalAlloc for Alloc {
     unsafe fn alloc(&self, layout: Layout) -> *mut u8 {
         let size = layout.size();
-        let limit = self.limit.load(Ordering::Acquire);
-        let new_size = self.used.fetch_add(size, Ordering::Acquire) + size;
-        if new_size <= limit {
+        if let Some(new_size) = self.charge(size) {
             self.max.fetch_max(new_size, Ordering::Relaxed);
             let result = self.parent.alloc(layout);
             if result.is_null() {
@@ -82,7 +100,6 @@ unsafe impl GlobalAlloc for Alloc {
             }
             result
         } else {
-            self.used.fetch_sub(size, Ordering::Release);
             ptr::null_mut()
         }
     }
@@ -95,9 +112,7 @@ unsafe impl GlobalAlloc for Alloc {
 
     unsafe fn alloc_zeroed(&self, layout: Layout) -> *mut u8 {
         let size = layout.size();
-        let limit = self.limit.load(Ordering::Acquire);
-        let new_size = self.used.fetch_add(size, Ordering::Acquire) + size;
-        if new_size <= limit {
+        if let Some(new_size) = self.charge(size) {
             self.max.fetch_max(new_size, Ordering::Relaxed);
             let result = self.parent.alloc_zeroed(layout);
             if result.is_null() {
@@ -105,7 +120,6 @@ unsafe impl GlobalAlloc for Alloc {
             }
             result
         } else {
-            self.used.fetch_sub(size, Ordering::Release);
             ptr::null_mut()
         }
     }
@@ -114,9 +128,7 @@ unsafe impl GlobalAlloc for Alloc {
         let new_layout = Layout::from_size_align_unchecked(realloc_size, old_layout.align());
         let (old_size, new_size) = (old_layout.size(), new_layout.size());
 
-        let limit = self.limit.load(Ordering::Acquire);
-        let new_used = self.used.fetch_add(new_size, Ordering::Acquire) + new_size;
-        if new_used <= limit {
+        if let Some(new_used) = self.charge(new_size) {
             self.max.fetch_max(new_used, Ordering::Relaxed);
             let result = self.parent.realloc(ptr, old_layout, realloc_size);
             if result.is_null() {
@@ -126,7 +138,6 @@ unsafe impl GlobalAlloc for Alloc {
             }
             result
         } else {
-            self.used.fetch_sub(new_size, Ordering::Release);
             ptr::null_mut()
         }
     }
